@@ -1,6 +1,7 @@
 package main
 
 import (
+	"strings"
 	"fmt"
 	"sync"
 )
@@ -32,9 +33,28 @@ func c12Corpus() [][]*SOp {
 	}
 }
 
+// c12Lifecycles: identifiers are opaque strings to the store: the whole life of a node and of an
+// account (register, credit, link, list, authorise, peer, statistics) must not depend on what
+// characters their names contain -- separators of the driver's own key layout included
+func c12Lifecycles() [][]*SOp {
+	nodes := []string{"enode:n2", "::1", "trailing:", "a:b:c", "vip:node:n1", "n/1", "n%201", "n\x00", " n1", "N1", "nœud-1", strings.Repeat("ab", 150)}
+	accts := []string{"", "w:1", "vip:balance:w1", "W1", "w1 ", "0xAbCdEf", "wœ"}
+	var out [][]*SOp
+	for k, n := range nodes {
+		a := accts[k%len(accts)]
+		t := nodes[(k+1)%len(nodes)]
+		out = append(out, []*SOp{{Op: "SetNode", ID: n, Host: true, Kind: "geth"}, {Op: "AddNodeBal", ID: n, Amount: "7"},
+			{Op: "AddAcctNode", Acct: a, ID: n}, {Op: "GetAcctNodes", Acct: a}, {Op: "IsAcctNode", Acct: a, ID: n}, {Op: "GetNodeBal", ID: n},
+			{Op: "AddNodeBal", ID: n, Amount: "1"}, {Op: "GetAcctBal", Acct: a}, {Op: "SetNode", ID: t}, {Op: "UpdatePeers", ID: t, Peers: []string{n}},
+			{Op: "NodePeers", ID: t}, {Op: "GetNode", ID: n}, {Op: "ActiveHosts", Kind: "geth", Limit: 5}, {Op: "Stats"},
+			{Op: "AddAcctNode", Acct: accts[(k+3)%len(accts)], ID: n}, {Op: "GetAcctNodes", Acct: a}, {Op: "GetAcctNodes", Acct: accts[(k+3)%len(accts)]}, {Op: "GetNodeBal", ID: n}})
+	}
+	return out
+}
+
 func runC12(ctx *Ctx) {
 	nseq := ctx.N(250, 6000)
-	corpus := c12Corpus()
+	corpus := append(c12Corpus(), c12Lifecycles()...)
 	type job struct {
 		i   int
 		ops []*SOp
